@@ -32,9 +32,34 @@ func C06(tier string) int {
 		cfg.MaxTrans = 30_000_000
 		cfg.MaxStates = 120_000
 	}
-	cfg.PerTransition = func(tx *bbolt.Tx, pre *explore.State, program []int, post *dump.Tree, m explore.Model) error {
-		for _, o := range program {
+	cfg.PerTransition = c06Oracle(rep, k)
+	runE1(rep, k, cfg)
+
+	// the delete in the same transaction as an earlier operation (what it has to remove is then partly uncommitted)
+	k2 := newKitchen("all features; any operation, then a delete, in one transaction", kFeat{orgs: true, places: true, rc: true, pets: true, maxCount: 2})
+	progs := explore.SingleOps(len(k2.Ops()))
+	for a := range k2.Ops() {
+		for d := range k2.Ops() {
+			if k2.opInfo[d].kind == "delete" {
+				progs = append(progs, []int{a, d})
+			}
+		}
+	}
+	cfg2 := explore.Config{Programs: progs, MaxDepth: 3, MaxTrans: 3_000_000, SkipRejectedPrefix: true, PerTransition: c06Oracle(rep, k2)}
+	if tier != "quick" {
+		cfg2.MaxDepth, cfg2.MaxTrans = 4, 20_000_000
+	}
+	runE1(rep, k2, cfg2)
+	return rep.Finish()
+}
+
+func c06Oracle(rep *report.Report, k *kitchen) func(tx *bbolt.Tx, pre *explore.State, program []int, post *dump.Tree, m explore.Model) error {
+	return func(tx *bbolt.Tx, pre *explore.State, program []int, post *dump.Tree, m explore.Model) error {
+		for i, o := range program {
 			info := k.opInfo[o]
+			if i != len(program)-1 {
+				continue // only the last operation's id is certainly gone at the end of the transaction
+			}
 			if info.kind != "delete" {
 				continue
 			}
@@ -48,6 +73,4 @@ func C06(tier string) int {
 		}
 		return nil
 	}
-	runE1(rep, k, cfg)
-	return rep.Finish()
 }
